@@ -124,15 +124,15 @@ Print Assumptions C16_e2e_snippet_cap_refuted.
    hits concatenate to the one-shot hits, total_hits is the one-shot's on every page, the
    pages partition the slice stream of the (now fixed) evaluated list.
    Side conditions: the tantivy pipeline answers (some slice exists: otherwise the legacy
-   pipeline answers, covered by theorem (1) with emit_fallback), usize arithmetic of
-   `top_k.max(1) + cursor` does not overflow, K holds all hits. *)
+   pipeline answers, covered by theorem (1) with emit_fallback), K holds all hits.
+   (No arithmetic side condition: since /repo 9b4da04 `top_k.max(1).saturating_add(cursor)`
+   cannot overflow.) *)
 Theorem C16_e2e_outside_known :
   forall (combined : N -> Z -> N) (has_lex : bool) (flt : option N) (cands : list cand) (k K : N),
     known_class cands k K = false ->
     flt_ok flt (len cands) ->
     let EV := resort combined (evaluate (N.max k 1) cands) in
     0 < total_slices EV ->
-    total_slices EV + N.max k 1 <= USIZE_MAX ->
     len (stream emit_tantivy EV) <= N.max K 1 ->
     exists pages one,
       follow (S (N.to_nat (total_slices EV))) (e2e_page combined has_lex flt cands k) None = (pages, Done) /\
@@ -179,7 +179,6 @@ Example C16_e2e_nonvacuous :
   known_class nv_cands 3 1000 = false /\
   flt_ok None (len nv_cands) /\
   total_slices (resort combined_days (evaluate 3 nv_cands)) = 60 /\
-  60 + N.max 3 1 <= USIZE_MAX /\
   len (stream emit_tantivy (resort combined_days (evaluate 3 nv_cands))) = 60 /\
   len (fst (follow 61 (e2e_page combined_days false None nv_cands 3) None)) = 20 /\
   hd_error (stream emit_tantivy (resort combined_days (evaluate 3 nv_cands))) = Some (2, (0, 50)).
